@@ -254,6 +254,14 @@ def build(tier, repo):
                    "no argument is freed behind the interpreter's back")
     chk.note_analysed("frees_checked", mr5.free_local_rule(r16, cs, allf))
     r16.require(40)
+    r17 = chk.rule("C19-R17", "re-shaping an existing matrix keeps its element count; work arrays have the same count in both type arms",
+                   "copy loops and LAPACK routines stay inside the buffers they were given")
+    nr = 0
+    for f_ in ("dense.c", "sparse.c", "base.c"):
+        nr += mr5.reshape_guard_rule(r17, cs[f_], cs[f_].order)
+    nr += mr5.arm_alloc_rule(r17, cs["lapack.c"], cs["lapack.c"].order)
+    chk.note_analysed("reshapes_and_arm_allocations", nr)
+    r17.require(15)
     r7.require(14)
     return chk
 
